@@ -398,6 +398,9 @@ func check(prop string, pc propConf, tier string) int {
 					// the race detector reported something: the test binary exits non-zero although every run completed
 					raceExit = true
 				}
+				if os.Getenv("VCHECK_DEBUG") != "" {
+					fmt.Fprintf(os.Stderr, "vcheck: chunk %d: err=%v readErr=%v okSum=%v runs=%d stderrBytes=%d\n%s\n", ci, err, rerr, okSum, s.Runs, eb.Len(), cut(eb.String(), 2500))
+				}
 				mu.Lock()
 				if okSum && raceExit {
 					rv, rt := raceReports(prop, tier, eb.String())
